@@ -15,8 +15,11 @@ import (
 
 // vp9KeyHeader builds a profile-0 key-frame header whose frame size encodes the parameter id.
 func vp9KeyHeader(par int) []byte {
-	w1 := uint64(639 + 16*par)
-	h1 := uint64(359 + 8*par)
+	// parameter ids 1,2,3: 1->2 changes only the width, 2->3 only the height, 3->1 both
+	ws := []uint64{655, 671, 671}
+	hs := []uint64{367, 367, 383}
+	w1 := ws[(par-1)%3]
+	h1 := hs[(par-1)%3]
 	v := (uint64(0) << 32) | (w1 << 16) | h1 // 4 colour bits (cs=0, range=0) + 32 size bits
 	v <<= 4                                  // left-align 36 bits in 5 bytes
 	return []byte{0x82, 0x49, 0x83, 0x42, byte(v >> 32), byte(v >> 24), byte(v >> 16), byte(v >> 8), byte(v)}
@@ -144,7 +147,15 @@ func mxPayOfOther(c string, payload []byte) int {
 func mxParOfInitCodec(c fmp4.Codec) int {
 	switch c := c.(type) {
 	case *fmp4.CodecVP9:
-		return (c.Width - 640) / 16
+		switch {
+		case c.Width == 656 && c.Height == 368:
+			return 1
+		case c.Width == 672 && c.Height == 368:
+			return 2
+		case c.Width == 672 && c.Height == 384:
+			return 3
+		}
+		return -1
 	case *fmp4.CodecAV1:
 		for i, sh := range av1SeqHeaders {
 			// the init box stores the OBU with a size field: compare the payload after the header byte
